@@ -88,4 +88,18 @@ theorem C20_legacy_counterexample : suitableAllocLegacy (2 ^ 31) 3 (2 ^ 32 - 1) 
 theorem C20_kernel_is_source (npeers n : Nat) : suitableAlloc npeers n = .ok (Gen.suitableAllocGen n npeers) :=
   suitableAlloc_eq_gen npeers n
 
+/-- **C20 / C06 (the batch handlers are the source).** What the gRPC handlers `SignBeaconAttestations` and `Multisign` do around the
+    signer — one DENIED response for a nil or empty request; responses created UNKNOWN; the FIRST entry that fails
+    identification gets its state and the handler returns without calling the signer; every signer result mapped to its
+    response state, the signature copied under SUCCEEDED only — is translated on every run from
+    services/api/grpc/handlers/signer/{signbeaconattestations,multisign}.go (factx/handlerbatch.go), and the model handlers
+    `hSignAtts` / `hMultisign` are, case by case, those generated functions around `signAtts` / `multisign`
+    (`hSignAtts_eq_gen`, `hMultisign_eq_gen` in Props/KernelsEq.lean §18).  Here: the response mapping is the model's `respond`
+    for every position, and a signature leaves the handler only under SUCCEEDED. -/
+theorem C20_handler_response_is_source (p : Pos) :
+    respond p = ⟨p.res, if (Gen.resultToStateGen (resCode p.res)).2 then p.root else none⟩ ∧
+    ((Gen.resultToStateGen (resCode p.res)).2 = true ↔ p.res = .succeeded) ∧
+    (∀ n, resOfCode n = none → Gen.resultToStateGen n = (stateName .unknown, false)) :=
+  ⟨(resultToState_eq_respond p).2.1, (resultToState_eq_respond p).2.2.2.1, (resultToState_eq_respond p).2.2.2.2⟩
+
 end Dirk
